@@ -61,6 +61,8 @@ pub fn asc_programs(tier: &str) -> (Vec<Program>, String) {
         v.extend(fam::a_sc(2, 2, 2, 4, true));
         v.extend(fam::a_sc(1, 3, 1, 3, false));
         v.extend(fam::a_sc_stagger_slots(2, 3, 2, 4, 0));
+        v.extend(fam::a_sc_nested(1, 2));
+        v.extend(fam::a_sc_nested(2, 1));
         level = "A-sc: 2 threads x <=2 ops (1 location), RMW-only 2 threads <=5 ops, 3 threads x 1 op; staggered joins: 3 children <=4 ops on 2 locations, every join order, main op after the first join".to_string();
     } else {
         v.extend(fam::a_sc(1, 2, 3, 6, false));
@@ -69,6 +71,8 @@ pub fn asc_programs(tier: &str) -> (Vec<Program>, String) {
         v.extend(fam::a_sc(1, 3, 2, 4, false));
         v.extend(fam::a_sc_stagger(2, 3, 2, 5));
         v.extend(fam::a_sc_stagger(1, 3, 2, 4));
+        v.extend(fam::a_sc_nested(1, 2));
+        v.extend(fam::a_sc_nested(2, 2));
         level = "A-sc: 2 threads x <=3 ops, 2 locations x <=2 ops, RMW-only <=6 ops, 3 threads <=4 ops; staggered joins: 3 children <=5 ops".to_string();
     }
     v.extend(fam::asc_sentinels());
@@ -448,7 +452,8 @@ pub fn spec(check: &str, tier: &str) -> Option<CheckSpec> {
                 progs.extend(fam::lock_family(2, 0, 2, 4, 6, false, true));
                 progs.extend(fam::asc_sentinels());
                 progs.extend(fam::lock_sentinels());
-                level = "A-sc 2 threads x <=2 ops; LOCK 2 threads <=6 ops; sentinels (3 threads); bounds 0..6 and unbounded".to_string();
+                progs.extend(fam::a_sc_nested(1, 2));
+                level = "A-sc 2 threads x <=2 ops; nested spawn (main -> T1 -> T2); LOCK 2 threads <=6 ops; sentinels (3 threads); bounds 0..6, #ops and unbounded".to_string();
             } else {
                 progs.extend(fam::a_sc(1, 2, 3, 6, false));
                 progs.extend(fam::a_sc(2, 2, 2, 4, false));
@@ -456,6 +461,8 @@ pub fn spec(check: &str, tier: &str) -> Option<CheckSpec> {
                 progs.extend(fam::lock_family(2, 0, 2, 4, 8, true, true));
                 progs.extend(fam::lock_family(1, 0, 3, 3, 7, true, true));
                 progs.extend(wait_programs("quick").0);
+                progs.extend(fam::a_sc_nested(1, 2));
+                progs.extend(fam::a_sc_nested(2, 2));
                 progs.extend(fam::asc_sentinels());
                 progs.extend(fam::lock_sentinels());
                 level = "A-sc 2 threads x <=3 ops, 3 threads; LOCK 2-3 threads <=8 ops; WAIT quick level; bounds 0..6 and unbounded".to_string();
